@@ -147,9 +147,9 @@ func NewTrack() *Track {
 }
 
 func (t Track) Len() int                       { return len(t.ops) }
-func (t *Track) AddTickDelta(tickDelta uint32) { t.tickDelta += tickDelta }
+func (t *Track) AddTickDelta(tickDelta uint32) { t.tickDelta = addTicks(t.tickDelta, tickDelta) }
 func (t *Track) Add(op *TrackOp) {
-	op.TickDelta += t.tickDelta
+	op.TickDelta = addTicks(op.TickDelta, t.tickDelta)
 	t.ops = append(t.ops, op)
 	t.tickDelta = 0
 }
